@@ -1,6 +1,7 @@
 SPECIFICATION Spec
 CONSTANT WithUnkillable = TRUE
 CONSTANT Fix_BoundFinalWait = FALSE
+CONSTANT Fix_GuardEndmarkerCallbacks = TRUE
 CONSTANT WithLinger = FALSE
 CONSTANT Fix_HardExit = TRUE
 CONSTANT KillOnTimeout = TRUE
